@@ -48,6 +48,7 @@ type c07prog struct {
 	ID      int       `json:"id"`
 	Pre     []opRec   `json:"pre"`
 	Threads [][]opRec `json:"threads"`
+	Budget  int       `json:"budget"` // schedules to enumerate (0: the -budget flag)
 }
 
 type rcvRec struct {
@@ -595,15 +596,98 @@ func runC07(inputs []json.RawMessage, tr *tracer) summary {
 				tr.flush()
 			}
 		}
-		st := sched.Explore(sc, *fMaxPre, *fBudget, seed(), false)
-		sum["schedules"] += st.Schedules
-		if st.Exhaustive {
-			sum["dfs_complete"]++
+		budget := p.Budget
+		if budget == 0 {
+			budget = *fBudget
 		}
-		st2 := sched.Random(sc, *fRandom, seed()*7919+int64(p.ID), false)
+		sum["schedules"] += explorePrio(sc, len(p.Threads), budget, seed()*7919+int64(p.ID))
+		st2 := sched.Random(sc, *fRandom, seed()*104729+int64(p.ID), false)
 		sum["schedules"] += st2.Schedules
 	}
 	serf.VerifYield = func(string) {}
 	serf.VerifYieldBlocked = func(string) {}
 	return sum
+}
+
+// explorePrio enumerates schedules by thread priorities with change points (the PCT scheme, made systematic):
+// the runnable thread of highest priority runs until it finishes or blocks; at a change point the running
+// thread drops to the lowest priority.  Priority orders: the given order, its reverse, their rotations, then
+// seeded random ones; change points: none, then one (occasionally two) at seeded positions.  A thread that is
+// only waiting for another one's progress ("wait") is never preferred over one that can make progress.
+// This reaches every "X runs up to a point, then everybody else, then X continues" interleaving with a
+// handful of runs per point, which a depth-first enumeration of the same budget does not.
+func explorePrio(sc sched.Scenario, nt, budget int, sd int64) int {
+	rng := rand.New(rand.NewSource(sd))
+	var perms [][]int
+	id := make([]int, nt)
+	rev := make([]int, nt)
+	for i := range id {
+		id[i] = i + 1
+		rev[i] = nt - i
+	}
+	for r := 0; r < nt; r++ {
+		perms = append(perms, append(append([]int{}, id[r:]...), id[:r]...))
+		perms = append(perms, append(append([]int{}, rev[r:]...), rev[:r]...))
+	}
+	runOne := func(prio []int, cps map[int]bool) int {
+		pr := append([]int{}, prio...)
+		s := sched.New()
+		onStep, finish := sc(s)
+		lastT := 0
+		res := s.Run(func(step int, elig []*sched.Thread) int {
+			if cps[step] && lastT != 0 {
+				for i, t := range pr {
+					if t == lastT {
+						pr = append(append(pr[:i:i], pr[i+1:]...), t)
+						break
+					}
+				}
+			}
+			best, bestRank, bestWait := 0, 1<<30, true
+			for i, t := range elig {
+				rank := 1 << 29
+				for j, x := range pr {
+					if x == t.ID {
+						rank = j
+					}
+				}
+				wait := t.Label == "wait"
+				if (bestWait && !wait) || (bestWait == wait && rank < bestRank) {
+					best, bestRank, bestWait = i, rank, wait
+				}
+			}
+			return best
+		}, -1, func(st sched.Step) {
+			lastT = st.Thread
+			onStep(st)
+		})
+		finish(res)
+		return len(res.Steps)
+	}
+	n := 0
+	length := runOne(id, nil)
+	n++
+	for r := 0; n < budget; r++ {
+		var prio []int
+		if r < len(perms) {
+			prio = perms[r]
+		} else if r%3 == 0 {
+			prio = make([]int, nt)
+			for i, x := range rng.Perm(nt) {
+				prio[i] = x + 1
+			}
+		} else {
+			prio = perms[r%len(perms)]
+		}
+		cps := map[int]bool{}
+		if r >= 2 {
+			cps[rng.Intn(length+1)] = true
+			if r%4 == 3 {
+				cps[rng.Intn(length+1)] = true
+			}
+		}
+		runOne(prio, cps)
+		n++
+	}
+	return n
 }
